@@ -9,6 +9,7 @@ V: histories with full issuance (fresh blind, nonce, challenge every time) and
    crypto/elliptic reference, and the issuer's returned key to equal the
    reference issuer-blinded key."""
 import vlib
+from checks import neighbours_common as nb
 from checks import ages_common as ag
 from checks import verdicts_common as vc
 from checks import attester_common as ac
@@ -23,7 +24,9 @@ def run(ctx):
     vn, vcases, vdepth = vc.run(ctx, ["t3issue"])
     ids = sum(1 for c in cases for s in c["steps"] if s.get("k") == "F")
     an, acases = ag.run(ctx, ['rlissuer'])   # Ages.tla: every schedule of phases on one long-lived object, each phase scaled to n operations
+    nn, ncases = nb.run(ctx)   # Neighbours.tla: every history of registrations, look-ups and requests on two issuers side by side
     return ctx.finish({
+        **nb.coverage(nn, ncases),
         **ag.coverage(an, acases),
         "traces_validated_against_impl": len(cases),
         "events_validated": n,
@@ -43,6 +46,8 @@ def run(ctx):
 
 
 def replay(ctx, path):
+    if vlib.json.load(open(path)).get("family") == "neighbours":
+        return nb.replay(ctx, path)
     if vlib.json.load(open(path)).get("family") == "ages":
         return ag.replay(ctx, path)
     if vlib.json.load(open(path)).get("family") == "verdicts":
